@@ -158,6 +158,45 @@ func stepFamilies() map[string]*stepFamily {
 		dslFam("with-chain", func(n int) string { return famRel + "[a" + strings.Repeat(" with c", n/7) + "]" })
 		dslFam("extend-many", func(n int) string { return "module m\n" + strings.Repeat("extend type a\n", n/14) })
 
+		// several cooperating module files
+		mergeFam := func(name string, gen func(n int) []transformer.ModuleFile) {
+			add(&stepFamily{name: "mergeset/" + name, entry: "TransformModuleFilesToModel", sizes: []int{10, 20, 40, 80}, warm: 3, make: func(n int) (int, func()) {
+				fs := gen(n)
+				l := 0
+				for _, f := range fs {
+					l += len(f.Contents) + len(f.Name)
+				}
+				return l, func() { transformer.TransformModuleFilesToModel(fs, "1.2") }
+			}})
+		}
+		mergeFam("many-files", func(n int) []transformer.ModuleFile {
+			var fs []transformer.ModuleFile
+			for i := 0; i < n; i++ {
+				fs = append(fs, transformer.ModuleFile{Name: fmt.Sprintf("f%d.fga", i), Contents: fmt.Sprintf("module m%d\ntype t%d\n  relations\n    define r: [t%d]\n", i%5, i, i)})
+			}
+			return fs
+		})
+		mergeFam("many-extensions-of-one-type", func(n int) []transformer.ModuleFile {
+			fs := []transformer.ModuleFile{{Name: "base.fga", Contents: "module base\ntype user\ntype doc\n  relations\n    define r: [user]\n"}}
+			for i := 0; i < n; i++ {
+				fs = append(fs, transformer.ModuleFile{Name: fmt.Sprintf("e%d.fga", i), Contents: fmt.Sprintf("module e%d\nextend type doc\n  relations\n    define x%d: [user] or r\n", i, i)})
+			}
+			return fs
+		})
+		mergeFam("many-duplicate-types", func(n int) []transformer.ModuleFile {
+			var fs []transformer.ModuleFile
+			for i := 0; i < n; i++ {
+				fs = append(fs, transformer.ModuleFile{Name: fmt.Sprintf("d%d.fga", i), Contents: "module d\ntype user\ntype doc\n\ncondition c(x: int) {\n  x < 1\n}\n"})
+			}
+			return fs
+		})
+		mergeFam("many-clashing-extensions", func(n int) []transformer.ModuleFile {
+			fs := []transformer.ModuleFile{{Name: "base.fga", Contents: "module base\ntype user\ntype doc\n  relations\n    define r: [user]\n"}}
+			for i := 0; i < n; i++ {
+				fs = append(fs, transformer.ModuleFile{Name: fmt.Sprintf("e%d.fga", i), Contents: "module e\nextend type doc\n  relations\n    define clash: [user]\nextend type nosuch\n  relations\n    define q: [user]\n"})
+			}
+			return fs
+		})
 		// model-level entry points
 		modelFam := func(name string, known string, sizes []int, mk func(n int) *openfgav1.AuthorizationModel) {
 			for _, ep := range []string{"TransformJSONProtoToDSL", "TransformJSONStringToDSL", "NewAuthorizationModelGraph", "Build"} {
@@ -704,7 +743,7 @@ func runC08(run *core.Run) {
 		for i, n := range all {
 			f := stepFamilies()[n]
 			special := !strings.Contains(n, "+")
-			if special && (strings.HasPrefix(n, "dsl/") || strings.HasSuffix(n, "/Build") || strings.HasPrefix(n, "yaml/")) || (i%17 == int(run.Seed)%17) || (f.known != "" && strings.HasPrefix(n, "dsl/hdr")) {
+			if special && (strings.HasPrefix(n, "dsl/") || strings.HasSuffix(n, "/Build") || strings.HasPrefix(n, "yaml/") || strings.HasPrefix(n, "mergeset/")) || (i%17 == int(run.Seed)%17) || (f.known != "" && strings.HasPrefix(n, "dsl/hdr")) {
 				pick = append(pick, n)
 			}
 		}
